@@ -383,6 +383,9 @@ func lineDiff(a, b string) string {
 
 func report(part *h.Partial, t *Tree, kind, cause string, o *Obs, what string) {
 	role := sigShape(t)
+	if strings.HasPrefix(kind, "list-") {
+		role = "-" // the listing code is the same for every shape
+	}
 	sigKind := kind
 	sig := fmt.Sprintf("C09 | %s | %s", sigKind, role)
 	if cause != "" {
